@@ -118,6 +118,28 @@ def cycle_broken(ctx) -> bool:
                 for tr in enclosing_tries(rh.node, n):
                     if drops(tr.finalbody, {}):
                         res = True
+                # ... or a context manager of the repository that hands the protocol out and drops the link in its finally
+                from ..structure import enclosing as _enclosing
+
+                for anc, _field in _enclosing(rh.node, n):
+                    if not isinstance(anc, (ast.With, ast.AsyncWith)):
+                        continue
+                    for item in anc.items:
+                        ce = item.context_expr
+                        if not (isinstance(ce, ast.Call) and isinstance(item.optional_vars, ast.Name) and item.optional_vars.id == proto and ce.args):
+                            continue
+                        t = ctx.resolver.resolve(ce, rh, rh.cls)
+                        g = t.funcs[0] if t.kind == "repo" and len(t.funcs) == 1 else None
+                        if g is None or not any((dotted(d_) or "").split(".")[-1] == "contextmanager" for d_ in g.node.decorator_list):
+                            continue
+                        params = g.params[1:] if g.cls is not None and g.params[:1] == ["self"] else g.params
+                        if not params:
+                            continue
+                        for st_ in g.node.body:
+                            if isinstance(st_, ast.Try) and st_.finalbody and any(
+                                    isinstance(y, ast.Yield) and isinstance(y.value, ast.Name) and y.value.id == params[0] for b_ in st_.body for y in ast.walk(b_)):
+                                if drops(st_.finalbody, {params[0]: ast.Name(id=proto, ctx=ast.Load())}):
+                                    res = True
     # the protocol must not keep the handler anywhere else
     pb = ctx.cls("protocols.base.BaseGopherProtocol")
     if res and pb is not None:
